@@ -289,6 +289,9 @@ func (t *TokenWallet) ValidateTx(params *swap.OpeningParams, txHex string) (bool
 	if t.p.point("validator.ValidateTx", "enter", t.chain) {
 		return false, ErrDead
 	}
+	if t.p.fault("validator.ValidateTx") != FaultNone {
+		return false, ErrInjected
+	}
 	tx, err := DecodeToken(txHex)
 	if err != nil {
 		return false, err
